@@ -212,13 +212,29 @@ theorem writerOK_abstract (p : List Call) (h : writerOK p = true) :
 
 /-- the lock file keeps its identity: a program accepted by any of the three predicates never renames another file onto `.ergo/lock`, nor
     unlinks or truncates it — so all processes that ever hold "the lock" hold a lock on one and the same file -/
-theorem lock_identity_kept (p : List Call) (h : writerOK p = true ∨ busyOK p = true ∨ readerOK p = true) :
-    ∀ c ∈ p, mutatesLock c = false := by
-  have key : (!p.any mutatesLock) = true → ∀ c ∈ p, mutatesLock c = false := fun hh => not_any_false _ _ hh
+theorem discipline_kept (p : List Call) (h : writerOK p = true ∨ busyOK p = true ∨ readerOK p = true) :
+    ∀ c ∈ p, breaksDiscipline c = false := by
+  have key : (!p.any breaksDiscipline) = true → ∀ c ∈ p, breaksDiscipline c = false := fun hh => not_any_false _ _ hh
   rcases h with h | h | h
   · unfold writerOK at h; rw [Bool.and_eq_true] at h; exact key h.1
   · unfold busyOK at h; simp only [Bool.and_eq_true] at h; exact key h.1.1.1
   · unfold readerOK at h; simp only [Bool.and_eq_true] at h; exact key h.1.1.1.1.1.1
+
+theorem lock_identity_kept (p : List Call) (h : writerOK p = true ∨ busyOK p = true ∨ readerOK p = true) :
+    ∀ c ∈ p, mutatesLock c = false := by
+  intro c hc
+  have := discipline_kept p h c hc
+  unfold breaksDiscipline at this
+  rw [Bool.or_eq_false_iff] at this
+  exact this.1
+
+/-- every open of an accepted program has the flag `ErgoModel.Files` needs: `O_TRUNC` on the temporary file, `O_APPEND` on the log -/
+theorem open_flags_kept (p : List Call) (h : writerOK p = true ∨ busyOK p = true ∨ readerOK p = true) :
+    ∀ c ∈ p, c ≠ .openBad := by
+  intro c hc e
+  have := discipline_kept p h c hc
+  subst e
+  simp [breaksDiscipline, undisciplined] at this
 
 /-- a process that found the lock taken did nothing: `Proc.Step.lockBusy` -/
 theorem busyOK_abstract (p : List Call) (h : busyOK p = true) :
